@@ -27,7 +27,10 @@ def pick_hints(rng, P, prob=0.4):
     if n < 2 or rng.random() > prob:
         return None
     for _ in range(30):
-        which = rng.choice(["a1", "a2", "a1a2", "op", "a1op", "all", "all", "a1a2"])
+        # an orientation point is only given together with both axis points: with the axis left to the implementation
+        # (farthest pair, ties broken by float noise for symmetric patterns) the caller cannot know whether its
+        # orientation point is an axis end, i.e. whether the triple is valid at all
+        which = rng.choice(["a1", "a2", "a1a2", "all", "all", "all", "a1a2"])
         a1 = a2 = op = None
         zero_slot = rng.random() < 0.35      # index 0 in some slot is a named corner of the quantifier
         if "a1" in which or which == "all":
